@@ -370,12 +370,15 @@ events_network_select(const struct timeval * tv,
 
 	/*
 	 * Convert timeout to an integer number of ms.  We round up in order
-	 * to avoid creating busy loops when 0 < ${tv} < 1 ms.
+	 * to avoid creating busy loops when 0 < ${tv} < 1 ms.  If ${tv} is
+	 * too large for that, wait for the largest whole number of seconds
+	 * which fits into an int (never longer than ${tv}); the caller will
+	 * simply poll again.
 	 */
 	if (tv == NULL)
 		timeout = -1;
 	else if (tv->tv_sec >= INT_MAX / 1000)
-		timeout = INT_MAX;
+		timeout = (INT_MAX / 1000) * 1000;
 	else
 		timeout = (int)(tv->tv_sec * 1000 + (tv->tv_usec + 999) / 1000);
 
